@@ -7,6 +7,19 @@ sys.path.insert(0, HERE)
 
 CLAIMS = {
 
+    'C07': ('proof',
+            'Only the parts a contract can decide: BackendWorker::_exit (loop contract, partial correctness): the final flush is preceded, with nothing read or processed in between, by an emptiness check of every queue and buffer that returned true when wait_for_queues_to_empty_before_exit is set; reclaim after the flush. BackendWorker::stop: notify then join exactly once. BackendManager::stop_backend_thread: fresh once_flag after the stop (restartable). detail::on_signal: ghost event order on a frontend thread - notice -> (critical notice) -> flush_log(0) -> signal(SIG_DFL) -> raise(original signal), and notice -> flush -> exit(0) for SIGINT/SIGTERM; on the backend thread exit/re-raise only; watchdog alarm armed first.',
+            'NOT decided here and listed as assumptions: atexit ordering and static destruction, signal masks and async-signal-safety, what another process reads from the file, wait status, that pause()/exit()/raise() do not return, liveness of the exit loop. "Every completed statement is written" additionally relies on C01-C03/C05/C06.',
+            'CBMC code contracts with ghost protocol state / event clock on control skeletons', '§3 C07'),
+    'C13': ('proof',
+            'quill\'s own arithmetic and cache handling by contract on the real code: StringFromTime::format_timestamp (cache invariant; timestamps going backwards fall back to strftime and leave the cache untouched; the H/M/S, 12-hour, %k/%l and %s values handed to the digit writer are those of the second-of-day of the requested instant; the cache then describes that instant), _next_quarter_hour_timestamp (next multiple of 900 s strictly after, bounded timestamp width), TimestampFormatter::format_timestamp (part 1, zero padding of width 3/6/9, fraction = ns/10^6, ns/10^3, ns with fraction < 10^width, part 2 for the same second).',
+            'TRUSTED: libc strftime/localtime_r/gmtime_r/timegm and tz data, with the stated AXIOM (constant zone offset and no local midnight within one UTC quarter hour (local) / half day (GMT)) carried by ghost anchor variables; fmt digit formatting; 64-bit division by 10^9 (DIV_1E9 stub). Not covered: pattern splitting (_split_timestamp_format_once, %r/%R/%T replacement), the constructor\'s rejection of two fractional specifiers / %X, _next_noon_or_midnight_timestamp (calendar arithmetic), DST tables.',
+            'CBMC code contracts on control skeletons with ghost anchor for the tz axiom', '§3 C13'),
+    'C17': ('proof',
+            'LoggerManager::cleanup_invalidated_loggers (loop contract, erase-aware tracked element): a logger is erased only if the user removed it AND the queues were found empty immediately before; valid loggers untouched; a kept invalid logger re-arms the flag. Frontend::remove_logger_blocking: request enqueued (retried until accepted) BEFORE the logger is invalidated; returns only after observing the very flag it sent. BackendWorker::_cleanup_invalidated_loggers: unused sinks destroyed before any blocked remover is released, flag only for erased loggers. SinkManager::cleanup_unused_sinks erases exactly the expired entries. Spinlock lock/unlock: mutual exclusion with acquire/release.',
+            'Not covered: shared_ptr/weak_ptr lifetime, create_or_get lookups (sorted vector), file closing, CsvWriter. Registries are abstracted to {tracked, representative}. "Statements logged before removal are written" relies on C03 (the request is queued behind them).',
+            'CBMC code contracts, loop contracts, ghost protocol state', '§3 C17'),
+
     'C04': ('proof',
             'Round-trip lemmas over the REAL lowered bodies of Codec<Arg>::compute_encoded_size / encode / decode_arg (if-constexpr arms selected by g++ itself against the real header) at uint32_t, double, bool, an enum, void const*: bytes reserved == written == consumed and the decoded value equals the argument, for every value (loop-free: complete). C string, char[8] and std::string arms: same lemma as BOUNDED stand-ins (length <= 16, every content, nullptr / unterminated array / embedded NUL included). InlinedVector (size cache) push_back below inline capacity / operator[] / clear by contract; LoggerImpl::_encode_header layout; log_statement proves the developers\' own NDEBUG-disabled size assertions for all instantiations; _populate_formatted_log_message clears the reused buffer. sanitize_non_printable_chars: exhaustive native enumeration (bounded).',
             'fmt is trusted (both sides call the same fmt with the same format string). Not covered: container/optional/pair/tuple/chrono/path codecs in include/quill/std, DeferredFormatCodec/DirectFormatCodec, StringRef, the variadic pack expansion (argument evaluation order), InlinedVector growth beyond 12 entries. Bounded units are reported separately and not counted as discharged proof obligations.',
